@@ -30,7 +30,14 @@ var ioRace = []string{`^io/`, `^internal/convert/`}
 
 var codecRace = []string{`^io/`, `^internal/convert/`, `^rpc/core/.*codec`}
 
+var transportRace = []string{`^rpc/socket/`, `^rpc/udp/`, `^rpc/websocket/`, `^rpc/http/`, `^rpc/mock/`, `^rpc/core/`}
+
 var props = map[string]propCfg{
+	"C12": {Pkg: "checks/c12", Level: "exploration", Passes: []pass{
+		{Name: "plain", Shards: 16, TimeoutS: 900, CaseTimeoutS: 240},
+		{Name: "fasthttp-client", Shards: 8, TimeoutS: 900, CaseTimeoutS: 240, Env: []string{"VERIF_FASTHTTP=1"}},
+		{Name: "race", Race: true, Shards: 16, TimeoutS: 1200, CaseTimeoutS: 600, Env: []string{"VERIF_LIGHT=1"}},
+	}, RaceFiles: transportRace},
 	"C07": {Pkg: "checks/c07", Level: "exploration", Passes: []pass{
 		{Name: "plain", Shards: 16, TimeoutS: 900, TZ: []string{"UTC", "Asia/Shanghai"}},
 		{Name: "race", Race: true, Shards: 16, TimeoutS: 1200, TZ: []string{"UTC"}},
